@@ -72,6 +72,7 @@ def variants_of(src, span):
                 j += 1
             if ok and any(ts[q][1] == '(' for q in range(i, j)):
                 yield ('stmt-in-block', [(t[2], ts[j][3], '{ ' + src[t[2]:ts[j][3]] + ' }')])
+                yield ('let-underscore', [(t[2], t[2], 'let _ = ')])
         # a == b -> b == a  (simple operands)
         if x == '=' and ts[i + 1][1] == '=' and ts[i + 1][2] == t[3] and pv not in '=!<>' and i + 2 < len(ts):
             # left operand: maximal run of ident / `.` / `::` / `*` tokens ending at i-1; right operand likewise starting at i+2
@@ -84,6 +85,21 @@ def variants_of(src, span):
             lo, ro = src[ts[a][2]:ts[i - 1][3]], src[ts[i + 2][2]:ts[b][3]]
             if re.fullmatch(r'[\w:.]+', lo) and re.fullmatch(r'[\w:.]+', ro) and ts[a - 1][1] in ('(', '{', ',', ';', '&', '|', 'if', '=', 'return') and ts[b + 1][1] in (')', '{', ',', ';', '&', '|', '}'):
                 yield ('swap-eq-operands', [(ts[a][2], ts[b][3], ro + ' == ' + lo)])
+        # commutative operations on simple operands: X.union(Y) / X.max(Y) / X.min(Y) -> Y.op(X);  a + b -> b + a
+        if x in ('union', 'max', 'min') and pv == '.' and ts[i + 1][1] == '(':
+            e = match_close(ts, i + 1)
+            arg = src[ts[i + 2][2]:ts[e - 1][3]] if e > i + 2 else ''
+            a = i - 2
+            while a - 1 > body_start and (ts[a - 1][1] in ('.', ':', '*') or (ts[a - 1][0] == 'ident' and ts[a][1] in ('.', ':'))):
+                a -= 1
+            recv = src[ts[a][2]:ts[i - 2][3]]
+            if re.fullmatch(r'\*?[\w:.]+', recv) and re.fullmatch(r'\*?[\w:.]+(\([\w:., &*]*\))?', arg) and ts[a - 1][1] in ('(', '{', ',', ';', '=', 'return'):
+                r2 = recv if not recv.startswith('*') else '(' + recv + ')'
+                a2_ = arg if not arg.startswith('*') else '(' + arg + ')'
+                yield ('commute-' + x, [(ts[a][2], ts[e][3], a2_ + '.' + x + '(' + recv + ')')])
+        if x == '+' and ts[i + 1][1] != '=' and pv not in ('(', ',', '=') and ts[i - 1][0] in ('ident', 'num') and ts[i + 1][0] in ('ident', 'num') \
+                and ts[i - 2][1] in ('(', '{', ',', ';', '=', 'return', '&&', '<', '>') and ts[i + 2][1] in (')', '}', ',', ';'):
+            yield ('commute-plus', [(ts[i - 1][2], ts[i + 1][3], ts[i + 1][1] + ' + ' + ts[i - 1][1])])
         # match arm `=> EXPR,` -> `=> { EXPR },`
         if x == '=' and ts[i + 1][1] == '>' and ts[i + 1][2] == t[3] and ts[i + 2][1] != '{':
             j = i + 2
